@@ -305,6 +305,20 @@ Theorem C17_nla_systems_none : forall m,
 Proof. exact EmitProofs.nla_systems_none. Qed.
 Print Assumptions C17_nla_systems_none.
 
+(** the pairs are numbered by AnalyserEquation::nlaSystemIndex() (the number the call sites print), not by a running
+    counter: every emitted (index, size) is the index and unknown count of an NLA equation of the model, and every NLA
+    equation's index is emitted — also when indices have gaps because an earlier system was eliminated by external
+    variables ([sibs_consistent]: nlaSiblings() are equations of the same system) *)
+Theorem C17_nla_systems_sound : forall m idx n, In (idx, n) (nla_systems m) ->
+  exists e, In e (am_equations m) /\ is_nla (ae_type e) = true /\ ae_nla_index e = idx /\ length (ae_vars e) = n.
+Proof. exact EmitProofs.nla_systems_sound. Qed.
+Print Assumptions C17_nla_systems_sound.
+
+Theorem C17_nla_systems_complete : forall m e, sibs_consistent (am_equations m) -> In e (am_equations m) ->
+  is_nla (ae_type e) = true -> exists n, In (ae_nla_index e, n) (nla_systems m).
+Proof. exact EmitProofs.nla_systems_complete. Qed.
+Print Assumptions C17_nla_systems_complete.
+
 (** ** 7. validity guards *)
 
 (** no model, no profile, or a model whose type is not ODE / DAE / NLA / ALGEBRAIC: both code strings are empty,
